@@ -157,7 +157,8 @@ pub fn all_specs() -> Vec<ParaSpec> {
 pub enum Scenario {
     RoundTrip,
     /// update_paragraph onto prior contents `kind` (0 empty, 1 own fields with other values, 2 own fields interleaved with
-    /// foreign fields (and comments on the lossless back-end), 3 every own optional field present), back-end
+    /// foreign fields (and comments on the lossless back-end), 3 every own optional field present, 4 only the later-declared
+    /// half of the present fields after a foreign field, without final newline), back-end
     Update(usize, bool),
     MissingMandatory(usize),
     Invalid(usize),
@@ -250,9 +251,26 @@ fn check_update(sp: &ParaSpec, v: &[usize], kind: usize, lossless: bool) -> Vec<
                 }
             }
         }
-        _ => {
+        3 => {
             for f in sp.fields.iter() {
                 prior.push_str(&render_para(&[(f.name, other(f))]));
+            }
+        }
+        _ => {
+            // only the later-declared half of the present fields (other values), after a foreign field and a comment,
+            // and NO final newline: the earlier-declared fields get appended, then the existing ones are rewritten
+            prior.push_str("X-Foreign-First: keep 1\n");
+            foreign.push("X-Foreign-First: keep 1".into());
+            if lossless {
+                prior.push_str("# a comment\n");
+                foreign.push("# a comment".into());
+            }
+            let half = fs.len() / 2;
+            for (f, _) in &fs[half..] {
+                prior.push_str(&render_para(&[(f.name, other(f))]));
+            }
+            if prior.ends_with('\n') {
+                prior.pop();
             }
         }
     }
@@ -370,7 +388,7 @@ impl Prop for C16 {
         "exploration"
     }
     fn rule(&self, _t: Tier) -> String {
-        "programs: 16 single-field structs (every combination of mandatory/optional x default/renamed key x default/custom serialiser x default/custom deserialiser), one struct with all 16 shapes, and every deriving struct shipped in the workspace; values: per struct every presence/value vector within k deviations (k = 2, thorough 3; full product for the single-field structs) of the all-mandatory and the all-present baselines; scenarios per vector: round trip on both back-ends; for k <= 1 also update_paragraph onto 4 prior contents x 2 back-ends, deletion of each mandatory field, corruption of each field that has an invalid value; non-trivial = all".into()
+        "programs: 16 single-field structs (every combination of mandatory/optional x default/renamed key x default/custom serialiser x default/custom deserialiser), one struct with all 16 shapes, and every deriving struct shipped in the workspace; values: per struct every presence/value vector within k deviations (k = 2, thorough 3; full product for the single-field structs) of the all-mandatory and the all-present baselines; scenarios per vector: round trip on both back-ends; for k <= 1 also update_paragraph onto 5 prior contents x 2 back-ends, deletion of each mandatory field, corruption of each field that has an invalid value; non-trivial = all".into()
     }
     fn bounds(&self, t: Tier) -> Value {
         json!({"structs": all_specs().iter().map(|s| json!({"id": s.id, "fields": s.fields.len()})).collect::<Vec<_>>(), "k": t.pick(2, 3)})
@@ -408,7 +426,7 @@ impl Prop for C16 {
                 let devs = dv.iter().filter(|d| **d != 0).count();
                 f(&C16Case { spec: sp.id.to_string(), v: v.clone(), scenario: Scenario::RoundTrip });
                 if devs <= 1 {
-                    for kind in 0..4 {
+                    for kind in 0..5 {
                         for lossless in [false, true] {
                             f(&C16Case { spec: sp.id.to_string(), v: v.clone(), scenario: Scenario::Update(kind, lossless) });
                         }
